@@ -94,6 +94,31 @@ fn random_literal(rng: &mut Rng) -> String {
     }
 }
 
+/// A literal within a hair of the midpoint between two adjacent f32 values in [2^-10, 1): the exact
+/// decimal expansion of the midpoint, nudged up or down in the ~45th digit. Correct rounding must
+/// follow the nudge; rounding through an intermediate f64 (double rounding) does not.
+pub fn near_midpoint_literal(rng: &mut Rng) -> String {
+    // x in [2^-10, 1): exponent field 117..=126
+    let exp = 117 + rng.below(10) as u32;
+    let mant = rng.below(1 << 23) as u32;
+    let m: u128 = ((1u128 << 23) | mant as u128) * 2 + 1; // 2M + 1
+    let s = (127 + 23 - exp) as u32 + 1; // midpoint = m / 2^s
+    let mut num: u128 = m;
+    for _ in 0..s {
+        num *= 5;
+    }
+    let digits = format!("{:0width$}", num, width = s as usize);
+    match rng.below(3) {
+        0 => format!(":0.{}", digits), // the exact tie
+        1 => format!(":0.{}{}1", digits, "0".repeat(20 + rng.usize_below(10))), // just above
+        _ => {
+            // just below: the expansion ends in 5
+            let head = &digits[..digits.len() - 1];
+            format!(":0.{}4{}", head, "9".repeat(20 + rng.usize_below(10)))
+        }
+    }
+}
+
 fn weight_of(form: &str) -> f32 {
     if form.is_empty() {
         1.0
@@ -180,6 +205,7 @@ pub fn run(ctx: &Ctx) -> Report {
     }
     let seed = ctx.seed;
     let random_forms = ctx.tier.pick(2, 24);
+    let midpoint_forms = ctx.tier.pick(2, 12);
     let extra_forms = ctx.tier.pick(2, EXTRA_FORMS.len());
     let results = par_run(
         jobs.len(),
@@ -203,6 +229,10 @@ pub fn run(ctx: &Ctx) -> Report {
                     for _ in 0..random_forms {
                         forms.push(random_literal(&mut rng));
                     }
+                    for _ in 0..midpoint_forms {
+                        forms.push(near_midpoint_literal(&mut rng));
+                        report.count("near_f32_midpoint_literals", 1);
+                    }
                     for form in forms {
                         let text = format!("{}{}", tok.text(), form);
                         let w = weight_of(&form);
@@ -225,19 +255,39 @@ pub fn run(ctx: &Ctx) -> Report {
                     let len = 1 + rng.usize_below(16);
                     let mut list: Vec<(Tok, String)> = Vec::new();
                     while list.len() < len {
+                        if !list.is_empty() && rng.chance(1, 6) {
+                            // the very same text again (X ... Y ... X): the later occurrence still wins
+                            let again = list[rng.usize_below(list.len())].clone();
+                            list.push(again);
+                            continue;
+                        }
                         let tok = if !list.is_empty() && rng.chance(2, 5) {
                             let (prev, _) = &list[rng.usize_below(list.len())];
                             overlapping(&mut rng, prev)
                         } else {
                             random_token(&mut rng)
                         };
-                        let form = match rng.below(4) {
-                            0 => String::new(),
-                            1 => rng.pick(&FIXED_FORMS).to_string(),
-                            2 => rng.pick(&EXTRA_FORMS).to_string(),
-                            _ => random_literal(&mut rng),
+                        let form = match rng.below(9) {
+                            0 | 1 => String::new(),
+                            2 | 3 => rng.pick(&FIXED_FORMS).to_string(),
+                            4 | 5 => rng.pick(&EXTRA_FORMS).to_string(),
+                            6 | 7 => random_literal(&mut rng),
+                            _ => near_midpoint_literal(&mut rng),
                         };
                         list.push((tok, form));
+                    }
+                    if rng.chance(1, 40) {
+                        // a prefix naming all 1326 combos (every row's widest token, shuffled), then the list:
+                        // whatever follows a complete range still re-weights it
+                        let mut cover: Vec<(Tok, String)> = vec![(Tok::PocketPlus(12), rng.pick(&FIXED_FORMS).to_string())];
+                        for x in 0..12u8 {
+                            cover.push((Tok::SuitedPlus(x, 12), rng.pick(&FIXED_FORMS).to_string()));
+                            cover.push((Tok::OffsuitPlus(x, 12), rng.pick(&FIXED_FORMS).to_string()));
+                        }
+                        rng.shuffle(&mut cover);
+                        cover.extend(list);
+                        list = cover;
+                        report.count("lists_starting_with_a_complete_cover", 1);
                     }
                     let weighted: Vec<(Tok, f32)> = list.iter().map(|(t, f)| (*t, weight_of(f))).collect();
                     let expected = expand_list(&weighted);
@@ -263,7 +313,7 @@ pub fn run(ctx: &Ctx) -> Report {
                     check_range_text(&text, &expected, report);
                     report.note_distinct(hash_str(&text));
                     report.count("lists", 1);
-                    report.count("list_tokens", len as u64);
+                    report.count("list_tokens", list.len() as u64);
                 }
             }
         },
